@@ -9,6 +9,7 @@ import (
 	"os"
 	"regexp"
 	"strings"
+	"sync"
 	"time"
 
 	"github.com/semihalev/twig"
@@ -170,6 +171,28 @@ func c05BigInts() []int {
 	}
 	return out
 }
+
+// more than 50 records of a comparable struct type whose interface field holds something that is not comparable
+func c05BoxedRecords(asIface bool) interface{} {
+	typed := make([]c05Boxed, 60)
+	generic := make([]interface{}, 60)
+	for i := range typed {
+		switch i % 3 {
+		case 0:
+			typed[i] = c05Boxed{V: map[string]interface{}{"i": i}}
+		case 1:
+			typed[i] = c05Boxed{V: []string{"x"}}
+		default:
+			typed[i] = c05Boxed{V: i}
+		}
+		generic[i] = typed[i]
+	}
+	if asIface {
+		return generic
+	}
+	return typed
+}
+
 func c05BigLists() [][]int {
 	out := make([][]int, 55)
 	for i := range out {
@@ -225,6 +248,7 @@ func c05Values() []namedVal {
 		{"named-int", c05Cents(-1234)}, {"named-float", c05Ratio(-2.25)},
 		{"re-slash", "/"}, {"re-mods-unclosed", "/sim"}, {"re-flag-only", "/i"}, {"re-full", "/^h.l+o$/ims"}, {"re-broken", "/(/u"}, {"fmt-verbs", "%d %s %v %[3]d %*d %!"},
 		{"intbig-1", math.MaxInt64 - 1}, {"intmin+1", math.MinInt64 + 1},
+		{"boxed-records-big", c05BoxedRecords(false)}, {"boxed-records-big-iface", c05BoxedRecords(true)}, {"boxed-record", c05Boxed{V: map[string]interface{}{"k": 1}}}, {"boxed-array", [2]c05Boxed{{V: []int{1}}, {V: 2}}},
 		{"trail-backslash", "Y-m-d\\"}, {"backslash", "\\"}, {"date-letters", "D, d M Y H:i:s \\a\\t e T P U u v N S z t L o W c r B I O"}, {"trail-percent", "50%"}, {"trail-brace", "a{"},
 		{"self-ptr", c05SelfPtr()}, {"nil-callable", (func(io.Writer) error)(nil)}, {"named-ptr-meth", c05MethPtr(&c05Meth{V: 4})}, {"float32-huge", float32(1e21)},
 		{"chan", ch}, {"func", func() int { return 1 }}, {"deep", deep}, {"err", fmt.Errorf("an error value")}, {"struct-empty", struct{}{}},
@@ -610,7 +634,8 @@ func (p *c05) Run(rec *core.Recorder, seed uint64, idx int, tier string) {
 	idx -= nB
 
 	// ---- D: pathological shapes
-	patho := c05Pathological()
+	c05PathoOnce.Do(func() { c05Patho = c05Pathological() })
+	patho := c05Patho
 	if idx < len(patho) {
 		src := patho[idx]
 		cs := map[string]any{"source": core.Trunc(src, 300), "len": len(src)}
@@ -706,6 +731,11 @@ func c05Ctx() map[string]interface{} {
 		"f": "notafunc", "x": "xx", "raw": "RAW"}
 }
 
+var (
+	c05PathoOnce sync.Once
+	c05Patho     []string
+)
+
 func c05Pathological() []string {
 	var out []string
 	rep := strings.Repeat
@@ -716,6 +746,9 @@ func c05Pathological() []string {
 		"{{ "+rep("(", 300)+"1"+rep(")", 300)+" }}",
 		"{{ "+rep("[", 200)+rep("]", 200)+" }}",
 		"{{ "+rep("-", 500)+"1 }}",
+		// nesting and chaining far beyond what a Go stack of the harness's size (96 MB) carries: an error is fine, a dead process is not
+		"{{ "+rep("(", 400000)+"1"+rep(")", 400000)+" }}", "{{ "+rep("not ", 400000)+"a }}", "{{ 1"+rep(" + 1", 300000)+" }}", "{{ "+rep("[", 300000)+rep("]", 300000)+" }}", "{{ a"+rep("|upper", 300000)+" }}", "{{ "+rep("-", 400000)+"1 }}",
+		"{% if "+rep("(", 200000)+"a"+rep(")", 200000)+" %}x{% endif %}", "{{ a ? "+rep("(a ? ", 100000)+"1"+rep(" : 2)", 100000)+" : 3 }}", "{{ f("+rep("f(", 200000)+"1"+rep(")", 200000)+") }}",
 		"{{ '2023-01-02'|date('Y-m-d\\ '|trim) }}", "{% set f = 'Y\\ '|trim %}{{ '2023-01-02'|date(f) }}{{ 'now'|date(f) }}", "{{ '%'|format(1) }}{{ 'a%'|format }}{{ '50\\ '|trim|format(1) }}",
 		"{{ "+rep("not ", 500)+"a }}",
 		"{{ a"+rep("|upper", 2000)+" }}",
